@@ -246,7 +246,8 @@ def run_property(prop, tier, spec, replay=None):
         ctx = Ctx(tier, sets)
         results = []
         broken = []
-        for rule in spec['rules']:
+        rules = list(spec['rules']) + (list(spec.get('rules_thorough', [])) if tier == 'thorough' else [])
+        for rule in rules:
             try:
                 r = rule(ctx)
                 if r is None:
@@ -273,7 +274,7 @@ def run_property(prop, tier, spec, replay=None):
     known_lines = []
     for r in results:
         for v in r.violations:
-            k = (v.rule, v.key)
+            k = (v.rule.split('@')[0], v.key)     # rule@<feature set> of the thorough tier: the same finding
             if k in findings:
                 matched.add(k)
                 known_lines.append('KNOWN-FINDING: property=%s rule=%s key=%s %s [%s]' % (prop, v.rule, v.key, v.msg, v.where()))
@@ -287,11 +288,28 @@ def run_property(prop, tier, spec, replay=None):
     for k in findings:
         if k not in matched:
             print('STALE-FINDING property=%s rule=%s key=%s (no longer reported by the check)' % (prop, k[0], k[1]), file=sys.stderr)
-    write_evidence(ev_path, prop, tier, seed, spec, results, n_viol, sorted(set(known_lines)), time.time() - t0, sets)
+    extra = None
+    if tier == 'thorough' and not os.environ.get('YATA_NO_SELFTEST') and REPO == '/repo':
+        extra = run_selftest_for(prop)
+    write_evidence(ev_path, prop, tier, seed, spec, results, n_viol, sorted(set(known_lines)), time.time() - t0, sets, selftest=extra)
     total = sum(r.instances for r in results)
     print('%s %s: %d rule instances over %d rules, %d violations, %d known findings, %.1fs' % (
         prop, tier, total, len(results), n_viol, len(set(known_lines)), time.time() - t0))
     return 1 if n_viol else 0
+
+
+def run_selftest_for(prop):
+    """thorough tier: apply the self-test mutants / neutral edits written for this property to scratch copies and record whether the
+    check reports them (tests the checker, does not influence the verdict on /repo)."""
+    try:
+        r = subprocess.run([sys.executable, os.path.join(VERIF, 'selftest', 'run.py'), '--prop', prop, '--jobs', '6', '--json'],
+                           capture_output=True, text=True, timeout=3000, env=dict(os.environ, YATA_NO_SELFTEST='1'))
+        line = [l for l in r.stdout.splitlines() if l.startswith('{"summary"')]
+        if line:
+            return json.loads(line[-1])
+        return {'error': (r.stdout + r.stderr)[-400:]}
+    except Exception as ex:       # the self-test is auxiliary
+        return {'error': str(ex)}
 
 
 def write_replay(prop, rule, key, data):
@@ -303,7 +321,7 @@ def write_replay(prop, rule, key, data):
     return rp
 
 
-def write_evidence(path, prop, tier, seed, spec, results, n_viol, known, wall, sets, note=None):
+def write_evidence(path, prop, tier, seed, spec, results, n_viol, known, wall, sets, note=None, selftest=None):
     samples = []
     for r in results:
         for s in r.samples[:6]:
@@ -330,6 +348,8 @@ def write_evidence(path, prop, tier, seed, spec, results, n_viol, known, wall, s
         'exhaustive': True,
         'repo': REPO,
     }
+    if selftest is not None:
+        cov['selftest'] = selftest
     if spec.get('proof_keys'):
         cov.update(spec['proof_keys'](results))
     ev = {
@@ -342,6 +362,30 @@ def write_evidence(path, prop, tier, seed, spec, results, n_viol, known, wall, s
     os.makedirs(os.path.dirname(path), exist_ok=True)
     with open(path, 'w') as f:
         json.dump(ev, f, indent=1, default=str)
+
+
+class FsCtx:
+    """A context whose default feature set is `fs` (to run a rule written for the default build on another build)."""
+
+    def __init__(self, ctx, fs):
+        self.ctx, self.fs = ctx, fs
+        self.tier, self.sets = ctx.tier, ctx.sets
+
+    def facts(self, name='default'):
+        return self.ctx.facts(self.fs if name == 'default' else name)
+
+
+def on_build(rule, fs):
+    """rule -> the same rule evaluated on the facts of feature set fs, reported as <rule>@<fs>"""
+    def run(ctx):
+        r = rule(FsCtx(ctx, fs))
+        for x in (r if isinstance(r, list) else [r]):
+            x.rule = '%s@%s' % (x.rule, fs)
+            for v in x.violations:
+                v.rule = x.rule
+        return r
+    run.__name__ = getattr(rule, '__name__', 'rule') + '_' + fs
+    return run
 
 
 class Ctx:
